@@ -225,6 +225,40 @@ def clause4(P, res):
                          where=f"{a['file']}:{a['line']}")
 
 
+def clause5(P, res):
+    rid = "C01-5"
+    res.rule(rid, "claimed-run hand-off (mpsc bounded batch sends): `claim_run` returns how many of the claimed tickets are inside the window (`valid`); at every "
+                  "`resolve_run(t, valid, m, iter)` the iterator removes exactly that many items from the caller's source — it is `.take(valid)` or `drain(..valid)` "
+                  "with the very same `valid`. A larger bound drops the overshoot items (never delivered, not left unsent); a smaller one publishes fewer than counted")
+    n = 0
+    for b in P.bodies.values():
+        if not b.id.startswith("fibre::mpsc::bounded_v3::") and not b.id.startswith("fibre::<mpsc::bounded_v3::"):
+            continue
+        for e in b.calls():
+            if e.method != "resolve_run" or len(e.args) < 5:
+                continue
+            n += 1
+            key = f"{b.id}:resolve_run#{sum(1 for x in b.calls() if x.method == 'resolve_run' and x.pos < e.pos)}"
+            valid = b.path_of_operand(e.args[2])
+            src = b.producer_call(e.args[4])
+            bound = None
+            if src is not None and src.method == "take" and len(src.args) >= 2:
+                bound = b.path_of_operand(src.args[1])
+            elif src is not None and src.method == "drain" and len(src.args) >= 2:
+                de = b.def_event_of_operand(src.args[1])
+                if de is not None and de.kind == "assign" and de.data["r"]["k"] == "agg" and de.data["r"]["adt"].endswith("RangeTo"):
+                    bound = b.path_of_operand(de.data["r"]["ops"][0])
+            if bound is None:
+                res.unclassified(rid, key, f"resolve_run at {e.loc}: iterator is neither .take(n) nor drain(..n) (found {src.method if src else 'no producing call'})", where=e.loc)
+            elif bound == valid and valid:
+                res.holds(rid, key, f"iterator bounded by `{bound}`, the same value passed as `valid`", where=e.loc)
+            else:
+                res.violated(rid, key, f"resolve_run at {e.loc} is told {valid or '?'} items are valid but its iterator is bounded by `{bound}`: items beyond `valid` are pulled "
+                             "out of the caller's batch and dropped without being sent or reported unsent", where=e.loc)
+    if n < 5:
+        res.violated(rid, "resolve_run-sites", f"expected >= 5 resolve_run call sites, found {n}")
+
+
 def run(P, ctx):
     res = Result("C01")
     res.extra["explanation"] = "Handoff-under-lock, timeout-vs-handoff, publication order/strength and value-returned-on-failure shapes of the point-to-point channels."
@@ -232,4 +266,5 @@ def run(P, ctx):
     clause2(P, res)
     clause3(P, res)
     clause4(P, res)
+    clause5(P, res)
     return res
